@@ -194,6 +194,20 @@ def assumed_array(cv):
     return {"k": "unmodelled"}
 
 
+def canon_destinations(ans):
+    """{"ok": JVal wire} with the members of the top-level "destinations" object sorted by key"""
+    try:
+        members = ans["ok"]["o"]
+    except (KeyError, TypeError):
+        return ans
+    out = []
+    for k, v in members:
+        if k == "destinations" and isinstance(v, dict) and "o" in v:
+            v = {"o": sorted(v["o"], key=lambda kv: str(kv[0]))}
+        out.append([k, v])
+    return {"ok": {"o": out}}
+
+
 def strings_of(j, acc):
     if isinstance(j, str):
         acc.append(j)
@@ -1023,7 +1037,18 @@ def run(tier, seed, model_ok, translator, search=False):
                 ans = rc.model_table_canon(ans)
                 if "ok" in ans:
                     ans["ok"].pop("fixer", None)
+            if what.startswith(("table_to_json_data", "make_table_json_data")):
+                # the destinations of a table are a set: the member order of "destinations" is promised by nothing
+                ans, impl = canon_destinations(ans), canon_destinations(impl)
             if ans != impl:
+                if what == "json_data_to_table(malformed)" and case.get("how") != "none" and \
+                        (not isinstance(ans, dict) or not isinstance(impl, dict) or "exc" in ans or "exc" in impl):
+                    # a malformed JsonData is outside the statement's domain: where model and code disagree on whether /
+                    # how it is refused, that is counted, not reported (both accepting with different tables is reported)
+                    out.count("d:out of domain, model and code disagree (%s): model %s / code %s" % (
+                        case.get("how"), ans.get("exc", "accepts") if isinstance(ans, dict) else "?",
+                        impl.get("exc", "accepts") if isinstance(impl, dict) else "?"))
+                    continue
                 out.mismatch(f"{what}: pdtable vs Lean model", case, impl, ans)
     return out
 
